@@ -51,6 +51,11 @@ fn palette() -> Vec<(&'static str, &'static str, bool)> {
         ("a\\b", "backslash", false),
         ("\\x41;", "backslash", false),
         ("a\\", "backslash", false),
+        // control characters
+        ("a\u{1b}b", "control", false),
+        ("\u{0}", "control", false),
+        ("bell\u{7}\u{7f}", "control", false),
+        ("\u{85}x\u{9b}", "control", false),
         // sign- or dot-initial tokens that are no numbers, in both cases
         ("-F", "number-shaped", true),
         ("-f", "number-shaped", true),
@@ -77,7 +82,7 @@ fn palette() -> Vec<(&'static str, &'static str, bool)> {
 
 /// a seeded name over a small alphabet of ordinary and special characters
 fn random_name(rng: &mut Rng) -> &'static str {
-    const ALPHA: [char; 16] = ['a', 'b', 'Z', ' ', '(', ')', '"', ';', '\\', '\t', '7', 'λ', '|', '#', '\'', '.'];
+    const ALPHA: [char; 20] = ['a', 'b', 'Z', ' ', '(', ')', '"', ';', '\\', '\t', '7', 'λ', '|', '#', '\'', '.', '\u{1b}', '\u{0}', '\u{7f}', '\n'];
     let n = rng.usize(7);
     let s: String = (0..n).map(|_| ALPHA[rng.usize(ALPHA.len())]).collect();
     Box::leak(s.into_boxed_str())
@@ -256,11 +261,14 @@ fn generate(rng: &mut Rng) -> Generated {
         let e1 = produce(r1, name1, p * 2, &mut aux);
         let e2 = produce(r2, name2, p * 2 + 1, &mut aux);
         forms.extend(aux);
-        let holder = rng.below(9);
+        let holder = rng.below(11);
         let garbage = format!("(begin (t-build {}) (t-syms {}) 'g)", rng.range(1, 60), rng.range(0, 12));
         // one class of pairs has a signature of its own (it is a known finding on the pinned tree):
         // the same digit-initial name once spelled in the program text and once converted from a string
-        let literal_vs_converted = class1 == "digit-initial-literal" && names_equal && needs_literal(r1) != needs_literal(r2);
+        // (by name, not by palette entry: the palette lists "1abc" twice, once as a name that is only
+        // ever converted from a string and once as a name that is also written in the program text)
+        let digit_literal = |n: &str| ["1abc", "12foo", "1A", "42..1", "1+"].contains(&n);
+        let literal_vs_converted = digit_literal(name1) && names_equal && needs_literal(r1) != needs_literal(r2);
         let what = if literal_vs_converted {
             "eq? digit-initial name: literal vs string->symbol".to_string()
         } else {
@@ -269,7 +277,7 @@ fn generate(rng: &mut Rng) -> Generated {
                 r1,
                 r2,
                 class1,
-                ["global", "vector", "closure", "stack", "dropped", "captured-stack", "vector-in-list", "closure-in-list", "nested-vector"][holder as usize],
+                ["global", "vector", "closure", "stack", "dropped", "captured-stack", "vector-in-list", "closure-in-list", "nested-vector", "live-activation-define", "live-activation-assigned"][holder as usize],
                 if names_equal { "equal" } else { "differ" }
             )
         };
@@ -328,6 +336,25 @@ fn generate(rng: &mut Rng) -> Generated {
                 forms.push(format!("(eq? (vector-ref (car (vector-ref (vector-ref h{} 0) 1)) 0) {})", p, e2));
                 expects.push(Expect { form: forms.len() - 1, expected: names_equal, what });
             }
+            9 | 10 => {
+                // the symbol lives only in an internal definition (or an assigned local) of an
+                // activation that is still running, while a closure over ANOTHER variable of that
+                // activation sits in a global
+                forms.push(format!("(define hg{} #f)", p));
+                if holder == 9 {
+                    forms.push(format!(
+                        "(define (live{p}) (define s {e1}) (define other (list 'o)) (set! hg{p} (lambda () other)) {g} (eq? s {e2}))",
+                        p = p, e1 = e1, e2 = e2, g = garbage
+                    ));
+                } else {
+                    forms.push(format!(
+                        "(define (live{p} s other) (set! hg{p} (lambda () other)) (set! s {e1}) {g} (eq? s {e2}))",
+                        p = p, e1 = e1, e2 = e2, g = garbage
+                    ));
+                }
+                forms.push(if holder == 9 { format!("(live{})", p) } else { format!("(live{} 0 (list 'o))", p) });
+                expects.push(Expect { form: forms.len() - 1, expected: names_equal, what });
+            }
             3 => {
                 // only on the stack, within one evaluation
                 forms.push(format!("(let ((a {})) {} (eq? a {}))", e1, garbage, e2));
@@ -364,7 +391,7 @@ fn generate(rng: &mut Rng) -> Generated {
             expects.push(Expect {
                 form: forms.len() - 1,
                 expected: true,
-                what: if class1 == "digit-initial-literal" && needs_literal(r1) {
+                what: if ["1abc", "12foo", "1A", "42..1", "1+"].contains(&name1) && needs_literal(r1) {
                     "string->symbol(symbol->string y) is y: digit-initial literal".to_string()
                 } else {
                     format!("string->symbol(symbol->string y) is y route={:?} name-class={}", r1, class1)
